@@ -217,6 +217,10 @@ def _merge(a: World, b: World, r: World) -> World:
                 u = new_uid()
                 r.ws[u] = join_w(r.ws[va[1]], r.ws[vb[1]])
                 fa.env[k] = ("lst", u)
+            elif va is None and vb and vb[0] in ("w", "lst"):
+                fa.env[k] = vb  # defined on one path only: keep it (obligations are may-properties)
+            elif vb is None and va and va[0] in ("w", "lst"):
+                pass
             else:
                 fa.env[k] = None
         fa.guard_empty &= fb.guard_empty
